@@ -1713,11 +1713,13 @@ class TimePoint:
 
     def __sub__(self, other):
         if isinstance(other, TimePoint):
-            if other > self:
-                return -1 * (other - self)
+            # Compare in one time zone: re-zoning each operand in turn can
+            # round differently, making both other > self and self > other.
             other = other.to_time_zone(
                 self._time_zone)._roll_over_end_of_day()
             self = self._roll_over_end_of_day()
+            if other > self:
+                return -1 * (other - self)
             my_year, my_day_of_year = self.get_ordinal_date()
             other_year, other_day_of_year = other.get_ordinal_date()
             diff_day = my_day_of_year - other_day_of_year
